@@ -333,6 +333,7 @@ func (k *worker) do(oi int, op Op) {
 		count("rtsp-pub", 1)
 		if udp {
 			count("rtsp-pub-udp", 1)
+			rp.alive = func() bool { return !conn.PeerGone() } // lal closes the command connection when the session ends
 		}
 		se := &session{kind: "pub-rtsp", name: name}
 		se.send = func(n int, sl *slot) {
@@ -507,6 +508,12 @@ func (k *worker) do(oi int, op Op) {
 					return
 				}
 				for i := 0; i < n; i++ {
+					if !tcp {
+						// never write to a freed udp port (another lal instance on this machine may have bound it)
+						if sg := s.SM.StatGroup(name); sg == nil || sg.StatPub.SessionId != id {
+							return
+						}
+					}
 					j := se.sent
 					se.sent++
 					vps, sps, pps := gen.ParamSets(video, 0)
